@@ -16,6 +16,11 @@ namespace cnl {
         template<class Result = void>
         constexpr auto unreachable(char const* /*message*/) noexcept -> Result
         {
+#if defined(JOHNMCFARLANE_CNL_VERIF)
+            if (verif_hook) {
+                verif_hook(1, nullptr);
+            }
+#endif
 #if defined(_MSC_VER)
             __assume(false);
 #elif defined(__GNUC__)
